@@ -29,7 +29,7 @@ CHECKS = {
    note="Trusted: the kernel's page protection (probes are real), the model page table, the scripted canary source. mprotect/mmap failures are not injected here. Two allocator build variants (mmap, posix_memalign). Sampling, not proof.",
    technique="deterministic simulation: simulated MMU/page table + real access probes + seeded operation histories"),
  "C19": dict(engine="c19_threads", category="exploration", design_ref="DESIGN.md section 7",
-   text="Seeded deterministic scheduling of 2-16 real threads racing through sodium_init() and a 71-operation workload over every API family (incl. shared read-only objects and constant-time helpers on guarded buffers) (default, internal and scripted RNG; guarded allocation; password hashing; pthread-mutex and spinlock builds of the library lock). libsodium is compiled with the ThreadSanitizer compiler instrumentation but linked against our own runtime: every access to tracked memory (the whole writable data segment plus library-allocated blocks), every lock, atomic and wrapped system call is a point where the seeded scheduler (random walk, PCT, loser-first, coarse) may switch; exactly one thread runs at a time, so a plan replays exactly; in half of the runs thread 0 is the process's main thread and the others are created when first scheduled; environment faults (sysconf failing in sodium_init, getrandom EINTR/EAGAIN, mlock refused) are per-thread deterministic. A violating schedule is reduced to an explicit list of deviations from run-to-completion order. An own vector-clock happens-before detector flags a race on any explored schedule in which two conflicting accesses are unordered by the program's own synchronisation. History oracles: init return values, initialisation work at the environment boundary equal to one sequential initialisation, every operation result equal to a sequential reference execution with per-thread entropy streams, no deadlock/livelock/assert/abort.",
+   text="Seeded deterministic scheduling of 2-16 real threads racing through sodium_init() and a 71-operation workload over every API family (incl. shared read-only objects and constant-time helpers on guarded buffers) (default, internal and scripted RNG; guarded allocation; password hashing; pthread-mutex and spinlock builds of the library lock). libsodium is compiled with the ThreadSanitizer compiler instrumentation but linked against our own runtime: every access to tracked memory (the whole writable data segment plus library-allocated blocks), every lock, atomic and wrapped system call is a point where the seeded scheduler (random walk, PCT, loser-first, coarse) may switch; exactly one thread runs at a time, so a plan replays exactly; in half of the runs thread 0 is the process's main thread and the others are created when first scheduled; environment faults (sysconf failing in sodium_init, getrandom EINTR/EAGAIN, mlock refused) are per-thread deterministic; the simulated clock either gives each thread its own time line or stands still for all threads (same microsecond everywhere). A violating schedule is reduced to an explicit list of deviations from run-to-completion order. An own vector-clock happens-before detector flags a race on any explored schedule in which two conflicting accesses are unordered by the program's own synchronisation. History oracles: init return values, initialisation work at the environment boundary equal to one sequential initialisation, every operation result equal to a sequential reference execution with per-thread entropy streams, purely random outputs never coinciding between or within threads, no deadlock/livelock/assert/abort.",
    note="Trusted: clang's TSan instrumentation pass (accesses it does not instrument, e.g. in the two .S files, are invisible), our runtime's happens-before model (C11: mutex, atomics, thread create/exit), glibc. Seeded search over schedules, not exhaustive; hardware memory-model effects beyond C11 happens-before are out of reach.",
    technique="deterministic simulation: seeded thread scheduler over real threads + own happens-before race detector on the TSan compiler ABI + sequential reference model"),
  "C18": dict(engine="c18_rng", category="exploration", design_ref="DESIGN.md section 6",
